@@ -40,7 +40,7 @@ class AssertionFailed(Exception):
 
 
 SAFE_BUILTINS = {'float', 'len', 'range', 'enumerate', 'zip', 'sum', 'tuple', 'list', 'isinstance', 'max', 'min', 'sorted', 'reversed', 'any', 'all', 'str', 'int', 'bool', 'abs', 'set', 'frozenset', 'dict'}
-SAFE_METHODS = {'split', 'rsplit', 'partition', 'strip', 'append', 'extend', 'join', 'index', 'count', 'insert', 'pop', 'copy', 'items', 'keys', 'values', 'get', 'format', 'startswith', 'endswith'}
+SAFE_METHODS = {'reverse', 'sort', 'split', 'rsplit', 'partition', 'strip', 'append', 'extend', 'join', 'index', 'count', 'insert', 'pop', 'copy', 'items', 'keys', 'values', 'get', 'format', 'startswith', 'endswith'}
 
 
 class MiniExec:
